@@ -40,7 +40,8 @@ inductive Pc where
   | gsChk2 (k : Nat) (g : Getter)   -- next: `key in self` (write lock held)
   | gsSwA (k : Nat)                 -- next: `_switch_write_to_read_lock` (someone else populated)
   | gsGet2 (k : Nat)                -- next: `self._cache.get_set(key,None)` after the switch
-  | gsPop (k : Nat) (g : Getter)    -- next: `self._cache.get_set(key,getter)` (write lock held)
+  | gsPop (k : Nat) (g : Getter)    -- next: `self._cache.get_set(key,getter)` starts (write lock held); a DiskCacher creates the file here
+  | gsPopW (k : Nat) (g : Getter)   -- the entry is being written (file created, not yet closed); next: getter result stored / getter raises
   | gsSwB (k : Nat) (v : Nat)       -- next: `_switch_write_to_read_lock` (after populating)
   | gsEnter (k : Nat) (v : Nat)     -- next: the caller enters the with-body and receives `v`
   | gsHRelR (k : Nat)               -- exception handler of get_set: `_release_read_lock`
@@ -61,11 +62,13 @@ inductive Ev where
   | acqR (k : Nat) | relR (k : Nat) | acqW (k : Nat) | relW (k : Nat) | sw (k : Nat)
   | contains (k : Nat) (b : Bool)
   | cget (k : Nat) (v : Nat)
+  | ccreate (k : Nat)                 -- the inner cacher starts populating (DiskCacher: the file now exists, incomplete)
   | cpop (k : Nat) (v : Nat) | cpopFail (k : Nat)
   | crmv (k : Nat) (b : Bool)
   | crmvFail (k : Nat)                -- the inner cacher's rmv raised (entry untouched)
   | enter (k : Nat) (v : Nat)
   | raiseBody
+  | refuse (k : Nat)                  -- repaired code only: a nested write-lock request on a busy slot raises instead of waiting
   deriving DecidableEq, Repr
 
 structure Caller where
@@ -74,6 +77,9 @@ structure Caller where
   rest : List (List Instr)
   stack : List Nat
   book : Nat → Int
+  /-- switch for the proposed repair `fixes/C19-nested-write-wait-raises.diff`: when set, `_acquire_write_lock` raises the
+  documented CobaException instead of waiting if the calling thread holds a read lock (is inside a with-block) -/
+  tn : Bool
 
 structure St where
   arr : Nat → Int
@@ -133,6 +139,7 @@ def stepC (idx : Nat → Nat) (arr : Nat → Int) (cache : Nat → Option Nat) (
   | .gsAcqW k g =>
     if arr (idx k) = 0 then
       some (.acqW k, upd arr (idx k) (-1), cache, { c with book := upd c.book k (-1), pc := .gsChk2 k g })
+    else if c.tn && !c.stack.isEmpty then some (.refuse k, arr, cache, toHandler c k)
     else some (.spin, arr, cache, c)
   | .gsChk2 k g =>
     match cache k with
@@ -144,7 +151,8 @@ def stepC (idx : Nat → Nat) (arr : Nat → Int) (cache : Nat → Option Nat) (
     match cache k with
     | some v => some (.cget k v, arr, cache, { c with pc := .gsEnter k v })
     | none => none
-  | .gsPop k g =>
+  | .gsPop k g => some (.ccreate k, arr, cache, { c with pc := .gsPopW k g })
+  | .gsPopW k g =>
     match g with
     | .ok v => some (.cpop k v, arr, upd cache k (some v), { c with pc := .gsSwB k v })
     | .fail => some (.cpopFail k, arr, cache, toHandler c k)
@@ -172,6 +180,7 @@ def stepC (idx : Nat → Nat) (arr : Nat → Int) (cache : Nat → Option Nat) (
   | .rmAcqW k f =>
     if arr (idx k) = 0 then
       some (.acqW k, upd arr (idx k) (-1), cache, { c with book := upd c.book k (-1), pc := .rmRemove k f })
+    else if c.tn && !c.stack.isEmpty then some (.refuse k, arr, cache, toUnwind c)
     else some (.spin, arr, cache, c)
   | .rmRemove k f =>
     if f then some (.crmvFail k, arr, cache, { c with pc := .rmHRelW k })
@@ -195,11 +204,17 @@ def step (idx : Nat → Nat) (s : St) (i : Nat) : Option (Ev × St) :=
     | none => none
     | some (ev, a, ch, c') => some (ev, { arr := a, cache := ch, cs := s.cs.set i c' })
 
-def mkCaller (prog : List (List Instr)) : Caller :=
-  { pc := .idle, cur := [], rest := prog, stack := [], book := fun _ => 0 }
+def mkCallerT (tn : Bool) (prog : List (List Instr)) : Caller :=
+  { pc := .idle, cur := [], rest := prog, stack := [], book := fun _ => 0, tn := tn }
+
+def mkCaller (prog : List (List Instr)) : Caller := mkCallerT false prog
 
 def init (progs : List (List (List Instr))) : St :=
   { arr := fun _ => 0, cache := fun _ => none, cs := progs.map mkCaller }
+
+/-- initial state of the repaired code (every caller has the switch set) -/
+def initR (progs : List (List (List Instr))) : St :=
+  { arr := fun _ => 0, cache := fun _ => none, cs := progs.map (mkCallerT true) }
 
 /-- run a schedule (list of caller numbers); a scheduled caller that has no step is skipped -/
 def run (idx : Nat → Nat) : St → List Nat → St × List (Nat × Ev)
@@ -218,6 +233,21 @@ def St.deadlocked (idx : Nat → Nat) (s : St) : Bool :=
     match step idx s i with
     | some (ev, _) => ev == Ev.spin
     | none => true)
+
+
+/-! ### infinite runs and fairness -/
+
+/-- state after `n` ticks of the infinite schedule `σ` (a tick whose caller has no step changes nothing) -/
+def runN (idx : Nat → Nat) (s : St) (σ : Nat → Nat) : Nat → St
+  | 0 => s
+  | t + 1 =>
+    match step idx (runN idx s σ t) (σ t) with
+    | some (_, s') => s'
+    | none => runN idx s σ t
+
+/-- the scheduler is fair: every one of the `n` callers gets a turn again and again -/
+def FairSched (n : Nat) (σ : Nat → Nat) : Prop := ∀ i, i < n → ∀ t, ∃ t', t ≤ t' ∧ σ t' = i
+
 
 /-! ### program predicates (the quantifier of the property) -/
 
@@ -254,7 +284,7 @@ def Pc.readKey : Pc → Option Nat
 
 /-- key on which the current phase holds the write lock -/
 def Pc.writeKey : Pc → Option Nat
-  | .gsChk2 k _ => some k | .gsSwA k => some k | .gsPop k _ => some k | .gsSwB k _ => some k
+  | .gsChk2 k _ => some k | .gsSwA k => some k | .gsPop k _ => some k | .gsPopW k _ => some k | .gsSwB k _ => some k
   | .gsHRelW k => some k | .rmRemove k _ => some k | .rmRelW k => some k | .rmHRelW k => some k
   | _ => none
 
@@ -277,6 +307,40 @@ def sumBy (f : Caller → Nat) : List Caller → Nat
 def St.R (idx : Nat → Nat) (s : St) (i : Nat) : Nat := sumBy (fun c => c.rc idx i) s.cs
 def St.W (idx : Nat → Nat) (s : St) (i : Nat) : Nat := sumBy (fun c => c.wc idx i) s.cs
 
+/-! ### wait-for graph -/
+
+/-- key whose write lock the caller is waiting for -/
+def Pc.wantW : Pc → Option Nat
+  | .gsAcqW k _ => some k
+  | .rmAcqW k _ => some k
+  | _ => none
+
+/-- key whose read lock the caller is waiting for -/
+def Pc.wantR : Pc → Option Nat
+  | .gsAcqR k _ => some k
+  | _ => none
+
+/-- caller `i` waits for caller `j`: `i` requests the write lock of an index on which `j` holds a
+read or write lock, or `i` requests a read lock on an index whose write lock `j` holds -/
+def waitsFor (idx : Nat → Nat) (s : St) (i j : Nat) : Bool :=
+  match s.cs[i]?, s.cs[j]? with
+  | some c, some d =>
+    (match c.pc.wantW with
+      | some k => decide (0 < d.rc idx (idx k)) || decide (0 < d.wc idx (idx k))
+      | none => false) ||
+    (match c.pc.wantR with
+      | some k => decide (0 < d.wc idx (idx k))
+      | none => false)
+  | _, _ => false
+
+/-- a non-empty path in the wait-for graph -/
+inductive WaitPath (idx : Nat → Nat) (s : St) : Nat → Nat → Prop
+  | one {i j} : waitsFor idx s i j = true → WaitPath idx s i j
+  | cons {i j k} : waitsFor idx s i j = true → WaitPath idx s j k → WaitPath idx s i k
+
+def waitEdges (idx : Nat → Nat) (s : St) : List (Nat × Nat) :=
+  (List.range s.cs.length).flatMap (fun i => ((List.range s.cs.length).filter (fun j => waitsFor idx s i j)).map (fun j => (i, j)))
+
 /-- facts that hold at particular program counters (the caller holds the matching lock there) -/
 def pcOK (cache : Nat → Option Nat) (c : Caller) : Prop :=
   match c.pc with
@@ -287,6 +351,7 @@ def pcOK (cache : Nat → Option Nat) (c : Caller) : Prop :=
   | .gsSwA k => (cache k).isSome
   | .gsGet2 k => (cache k).isSome
   | .gsPop k _ => cache k = none
+  | .gsPopW k _ => cache k = none
   | .gsSwB k v => cache k = some v
   | .gsEnter k v => cache k = some v
   | .gsHRelR _ => False
@@ -312,10 +377,15 @@ inductive Reachable (idx : Nat → Nat) (progs : List (List (List Instr))) : St 
   | init : Reachable idx progs (init progs)
   | step {s s' i ev} : Reachable idx progs s → step idx s i = some (ev, s') → Reachable idx progs s'
 
+/-- reachable states of the repaired code -/
+inductive ReachableR (idx : Nat → Nat) (progs : List (List (List Instr))) : St → Prop
+  | init : ReachableR idx progs (initR progs)
+  | step {s s' i ev} : ReachableR idx progs s → step idx s i = some (ev, s') → ReachableR idx progs s'
+
 /-- variant: strictly decreases with every step that is not a failed lock guard -/
 def Pc.rank : Pc → Nat
-  | .idle => 2 | .gsAcqR _ _ => 13 | .gsChk1 _ _ => 12 | .gsGet1 _ => 7 | .gsRelR _ _ => 11
-  | .gsAcqW _ _ => 10 | .gsChk2 _ _ => 9 | .gsSwA _ => 8 | .gsGet2 _ => 7 | .gsPop _ _ => 8
+  | .idle => 2 | .gsAcqR _ _ => 14 | .gsChk1 _ _ => 13 | .gsGet1 _ => 7 | .gsRelR _ _ => 12
+  | .gsAcqW _ _ => 11 | .gsChk2 _ _ => 10 | .gsSwA _ => 8 | .gsGet2 _ => 7 | .gsPop _ _ => 9 | .gsPopW _ _ => 8
   | .gsSwB _ _ => 7 | .gsEnter _ _ => 6 | .gsHRelR _ => 4 | .gsHRelW _ => 3 | .exRel => 1
   | .rmChk _ _ => 6 | .rmAcqW _ _ => 5 | .rmRemove _ _ => 4 | .rmRelW _ => 3 | .rmHRelW _ => 3 | .unwind => 2
 
@@ -338,6 +408,7 @@ def hierC (idx : Nat → Nat) (c : Caller) : Prop :=
   | .gsAcqW k _ => hierOk idx c.stack k = true ∧ segOk (hierOk idx) (k :: c.stack) c.cur = true
   | .gsChk2 k _ => segOk (hierOk idx) (k :: c.stack) c.cur = true
   | .gsPop k _ => segOk (hierOk idx) (k :: c.stack) c.cur = true
+  | .gsPopW k _ => segOk (hierOk idx) (k :: c.stack) c.cur = true
   | .gsGet1 k => segOk (hierOk idx) (k :: c.stack) c.cur = true
   | .gsSwA k => segOk (hierOk idx) (k :: c.stack) c.cur = true
   | .gsGet2 k => segOk (hierOk idx) (k :: c.stack) c.cur = true
@@ -397,6 +468,7 @@ def provC (P : Nat → Nat → Prop) (c : Caller) : Prop :=
   | .gsAcqW k g => getterP P k g
   | .gsChk2 k g => getterP P k g
   | .gsPop k g => getterP P k g
+  | .gsPopW k g => getterP P k g
   | .gsSwB k v => P k v
   | _ => True
 
@@ -430,5 +502,14 @@ def diskGetSet (fs : Fs) (key : Nat) (w : Write) : Fs × DiskOut :=
     | .complete bytes => (upd fs1 key (some bytes), .value bytes)
     | .cutAfter _ => (upd fs1 key none, .raised)     -- except: if key in self: self.rmv(key); raise
     | .failBefore => (fs1, .raised)
+
+/-- `ConcurrentCacher(DiskCacher).get_set(key, getter)` for a single caller: an existing file (of any
+length — `DiskCacher.__contains__` is `exists()`) sends ConcurrentCacher down its read path, which calls
+`DiskCacher.get_set(key, None)`; for a zero-length file that removes the file, creates it again and
+fails on `for line in None` (TypeError), removing it once more.  An absent file takes the write path. -/
+def concDiskGetSet (fs : Fs) (key : Nat) (w : Write) : Fs × DiskOut :=
+  match fs key with
+  | some _ => diskGetSet fs key (.cutAfter [])
+  | none => diskGetSet fs key w
 
 end Coba.C19
